@@ -56,17 +56,16 @@ def parseCall (j : Json) : R CallRec := do
   return ⟨← fldNat j "d", ← parseOutcome (← fldStr j "o"),
           ← (← fldArr j "t").mapM parseTouch, ← (← fldArr j "x").mapM parseExt⟩
 
-def parseWake (j : Json) : R (Option (Nat × List Ext)) :=
-  if j.isNull then pure none
-  else do return some (← fldNat j "d", ← (← fldArr j "x").mapM parseExt)
+def parseWake (j : Json) : R (List (Nat × List Ext)) := do
+  (← arr j).mapM (fun b => do return (← fldNat b "d", ← (← fldArr b "x").mapM parseExt))
 
-def mkEnv (advs : Array Nat) (calls : Array CallRec) (wakes : Array (Option (Nat × List Ext))) : Env where
+def mkEnv (advs : Array Nat) (calls : Array CallRec) (wakes : Array (List (Nat × List Ext))) : Env where
   adv k := advs.getD k 0
   dur k := (calls.getD k default).d
   out k := (calls.getD k default).out
   touch k := (calls.getD k default).touch
   ext k := (calls.getD k default).ext
-  wake k := wakes.getD k none
+  wake k := wakes.getD k []
 
 def parseMod (j : Json) : R (Mod × List (Nat × Nat)) := do
   let iv ← fldNat j "interval"
@@ -85,13 +84,15 @@ def initStamp (ms : List (List (Nat × Nat))) : Nat → Nat → Nat :=
     | none => 0
 
 /-- iterate `turn` while recorded clock reads are left (each turn consumes at least one) -/
-def loopTurns (env : Env) (nReads : Nat) : Nat → PollState → Array Event → PollState × Array Event
-  | 0, σ, acc => (σ, acc)
-  | fuel + 1, σ, acc =>
-    if σ.nRead ≥ nReads then (σ, acc)
+def loopTurns (env : Env) (nReads : Nat) : Nat → PollState → Array Event → Array Json → PollState × Array Event × Array Json
+  | 0, σ, acc, dbg => (σ, acc, dbg)
+  | fuel + 1, σ, acc, dbg =>
+    if σ.nRead ≥ nReads then (σ, acc, dbg)
     else
       let r := turn consts env σ
-      loopTurns env nReads fuel r.σ (acc ++ r.evs.toArray)
+      let d := jarr [jnat σ.clock, jnat r.σ.clock, jnat σ.nWait, Json.bool σ.trig, Json.bool σ.toPoll.isSome,
+                     jarr (σ.mods.map (fun m => jarr [jnat m.interval, jnat m.lastMain, jnat m.lastSlow]))]
+      loopTurns env nReads fuel r.σ (acc ++ r.evs.toArray) (dbg.push d)
 
 def parseModInfo (j : Json) : R ModInfo := do
   let ivs ← (← fldArr j "intervals").mapM (fun x => do
@@ -148,13 +149,14 @@ def handle (j : Json) : R Json := do
     let σ0 : PollState := { clock := ← fldNat j "clock", nRead := 0, nCall := 0, nWait := 0, trig := false,
                             mods := ms.map (·.1), toPoll := none, stamp := initStamp (ms.map (·.2)) }
     let p := prologue consts env σ0
-    let (σ, evs) := loopTurns env advs.length (advs.length + 1) p.σ p.evs.toArray
+    let (σ, evs, dbg) := loopTurns env advs.length (advs.length + 1) p.σ p.evs.toArray #[]
+    let wantDbg := (j.getObjVal? "debug").toOption.isSome
     return Json.mkObj [("evs", jarr ((evs.toList.take calls.length).map eventJson)),
                        ("nevs", jnat evs.size),
                        ("aborted", Json.bool p.aborted),
                        ("loopStart", jnat p.σ.clock),
                        ("nRead", jnat σ.nRead), ("nCall", jnat σ.nCall), ("nWait", jnat σ.nWait),
-                       ("clock", jnat σ.clock)]
+                       ("clock", jnat σ.clock), ("turns", if wantDbg then Json.arr dbg else Json.null)]
   | "judge" =>
     let tr ← parseTrace j
     let a := survivesB tr; let n := noPollB tr; let g := mainGapB tr; let s := slowRefreshB tr
